@@ -303,6 +303,8 @@ def run(ctx, res):
     check_threads(res, facts)
     check_tail(res, facts)
     check_stride(res, facts)
+    from rules import c01
+    c01.check_batchinv_par(res, facts)
     return {
         "level": "other",
         "explanation": "Effect/ownership and sibling rules over the MIR of the crates built with their `parallel` features, compared with the serial build: captured state of every rayon closure is Freeze and free of synchronisation primitives, parallel reductions are over commutative monoids, serial and parallel variants of a function share their kernels, chunk accumulators start from the monoid identity. Together with Rust's Send/Sync typing this decides independence of the interleaving for a fixed split. Correctness of per-chunk offsets / tails for every thread count is arithmetic on run-time values and NOT decided (the `configurations` half of the quantifier).",
